@@ -22,7 +22,7 @@ EXTENDS Integers, Sequences, SequencesExt, FiniteSets, TLC, Json, IOUtils, CSV
 OutFile == IOEnv.VERIF_CASES
 Thorough == IOEnv.VERIF_GEN = "thorough"
 
-Layouts == {"fopts+app", "port0", "app", "foptsonly", "fopts+port"}     \* fopts+port: FOpts and an FPort > 0 without any FRMPayload byte
+Layouts == {"fopts+app", "port0", "app", "foptsonly", "fopts+port", "port0empty"}     \* fopts+port: FOpts and an FPort > 0 without any FRMPayload byte; port0empty: FPort 0 and nothing else
 Deviations == {"none", "frmkey", "foptskey", "fkey", "skey", "fcnthigh", "conf", "confhigh", "txdr", "txch",
                "tamper-hdr", "tamper-fo", "tamper-frm", "tamper-mic"}
 Cfgs == [dir : {"up", "down"}, ver : {0, 1}, ack : BOOLEAN, layout : Layouts, dev : Deviations,
@@ -37,7 +37,7 @@ None == [present |-> FALSE, pt |-> "-", ks |-> {}]
 Region(p) == [present |-> TRUE, pt |-> p, ks |-> {}]
 HasFOpts(c) == c.layout \in {"fopts+app", "foptsonly", "fopts+port"}
 HasFRM(c) == c.layout \in {"fopts+app", "port0", "app"}
-PortClass(c) == CASE c.layout \in {"fopts+app", "app", "fopts+port"} -> "app" [] c.layout = "port0" -> "zero" [] OTHER -> "absent"
+PortClass(c) == CASE c.layout \in {"fopts+app", "app", "fopts+port"} -> "app" [] c.layout \in {"port0", "port0empty"} -> "zero" [] OTHER -> "absent"
 
 Toggle(r, k) == IF ~r.present THEN r ELSE [r EXCEPT !.ks = (r.ks \ {k}) \cup ({k} \ r.ks)]
 
